@@ -419,6 +419,10 @@ def load_probes():
     add("poscar", "atcoords", "poscar", g_coords, text=_poscar, name="POSCAR.p", span=(8, 12))
     add("poscar", "cellvecs", "poscar", g_cell, text=_poscar, name="POSCAR.p", span=(2, 5), max_moved=1)
     add("chgcar", "atcoords", "chgcar", g_coords, text=_chgcar_cart, name="CHGCAR.p", span=(7, 12))
+    add("poscar-kartesian", "atcoords", "poscar", g_coords, text=lambda: _poscar().replace("\nCartesian\n", "\nKartesian\n"),
+        name="POSCAR.p", span=(8, 12))
+    add("chgcar-kartesian", "atcoords", "chgcar", g_coords, text=lambda: _chgcar_cart().replace("\nCartesian\n", "\nkartesian\n", 1),
+        name="CHGCAR.p", span=(7, 12))
     add("chgcar", "cube.data", "chgcar", lambda d: d.cube.data, file="CHGCAR.oxygen", name="CHGCAR.p", span=(11, 13))
     add("chgcar", "cellvecs", "chgcar", g_cell, file="CHGCAR.oxygen", name="CHGCAR.p", span=(2, 5))
     add("chgcar-lefthanded", "cube.data", "chgcar", lambda d: d.cube.data, text=_chgcar_lefthanded, name="CHGCAR.p", span=(11, 13))
@@ -730,6 +734,30 @@ def search(ctx):
             ctx.fail(f"unit:{fmt}:{qty}",
                      f"{fmt} {d}s {qty} with factor {float(b / a):.9g} per file unit; the format prescribes {un} = {float(units[un]):.9g} a.u.",
                      {"kind": "row", "fmt": fmt, "qty": qty, "dir": d, "a": _enc(a), "b": _enc(b), "slack": _enc(slack), "note": note})
+    # a geometry table whose header names another unit than the reader handles must be converted from THAT unit or
+    # refused, never read with the factor of the usual unit (Q-Chem prints `(Bohr)` under INPUT_BOHR)
+    import re
+
+    for fn, iofmt, pat, repl, unit in (("water_hf_ccpvtz_freq_qchem.out", "qchemlog", r"Standard Nuclear Orientation \(Angstroms\)",
+                                        "Standard Nuclear Orientation (Bohr)", "au"),):
+        txt = (DATA / fn).read_text()
+        if not re.search(pat, txt):
+            continue
+        try:
+            ref = _load_text(iofmt, txt, "ref." + fn.split(".")[-1])
+            alt = _load_text(iofmt, re.sub(pat, repl, txt), "alt." + fn.split(".")[-1])
+        except Exception as exc:  # noqa: BLE001
+            ctx.count("search-header-unit", fn, f"{iofmt}/refused:{type(exc).__name__}")
+            continue
+        ratio = float(np.abs(alt.atcoords).max() / np.abs(ref.atcoords).max())
+        want = float(units[unit] / units["angstrom"])
+        ok = abs(ratio - want) <= 1e-6 * want
+        ctx.count("search-header-unit", fn, f"{iofmt}/{'ok' if ok else 'BAD'}")
+        if not ok:
+            ctx.fail(f"unit:{iofmt}:atcoords:header-{unit}",
+                     f"{fn} with the geometry header rewritten to {repl!r} loads coordinates {ratio:.6f} x those of the "
+                     f"angstrom file; a table in {unit} must give {want:.6f} x (or be refused)",
+                     {"kind": "header-unit", "file": fn, "fmt": iofmt, "pattern": pat, "repl": repl, "unit": unit})
     # masses of every fixture that carries them must be atomic masses in electron masses
     from iodata import load_one
 
@@ -810,6 +838,18 @@ def replay(ctx, obj):
         rows, _ = run_probes(None, strict=False)
         return any(_row_ok_py(spec, units, f, q, d, a, b, s) is not True for f, q, d, a, b, s, _n in rows
                    if (f, q, d) == (inp["fmt"], inp["qty"], inp["dir"]))
+    if inp["kind"] == "header-unit":
+        import re
+
+        txt = (DATA / inp["file"]).read_text()
+        try:
+            ref = _load_text(inp["fmt"], txt, "ref.out")
+            alt = _load_text(inp["fmt"], re.sub(inp["pattern"], inp["repl"], txt), "alt.out")
+        except Exception:  # noqa: BLE001
+            return False
+        ratio = float(np.abs(alt.atcoords).max() / np.abs(ref.atcoords).max())
+        want = float(units[inp["unit"]] / units["angstrom"])
+        return abs(ratio - want) > 1e-6 * want
     if inp["kind"] == "probe-problem":
         _rows, problems = run_probes(None, strict=False)
         return any(pr.split(":")[0] == inp["what"].split(":")[0] for pr in problems)
